@@ -23,7 +23,8 @@ for d in sorted(glob.glob(os.path.join(VERIF, 'seeded', '*'))):
         else:
             quiet.append(ch['prop'])
     if m.get('obsolete_since'):
-        verdict = f"obsolete since repo fix {m['obsolete_since']} (was caught by C11 before it)"
+        verdict = f"moot since repo fix {m['obsolete_since']}" + \
+            (f" ({m['obsolete_reason']})" if m.get('obsolete_reason') else '')
     elif caught:
         verdict = 'caught by ' + ', '.join(caught) + (f"; quiet: {', '.join(quiet)}" if quiet else '')
     elif r:
